@@ -1,8 +1,9 @@
 import FormulaicVerif.Engines.Json
 import FormulaicVerif.Model.Constraints
 import FormulaicVerif.Model.ConstraintParse
+import FormulaicVerif.Model.ConstraintForms
 namespace FormulaicVerif.Engines.C16
-open Lean FormulaicVerif.Engines FormulaicVerif.Model.Constraints
+open Lean FormulaicVerif.Engines FormulaicVerif.Model.Constraints FormulaicVerif.Model.ConstraintForms
 
 def ratStr (q : Rat) : String := toString q.num ++ "/" ++ toString q.den
 
@@ -93,38 +94,93 @@ def parseFn (tbl : List (String × Parsed)) (s : String) : Parsed :=
   | some p => p.2
   | none => .error "not-supplied"
 
-def specOf (j : Json) : Option Spec :=
-  match jstr j "form" with
-  | "str" => some (.str (jstr j "spec"))
-  | "list" => some (.list (strs j "spec"))
-  | "dict" => some (.dict ((jarr j "spec").map (fun kv =>
-      match asArr kv with
-      | [k, v] => (asStr k, ratOf (asStr v))
-      | _ => ("", 0))))
-  | _ => none
-
-/-- error classes some evaluation schedule / set order could raise for one string -/
-def altOne (names : List String) (p : Parsed) : List String :=
+/-- errors some evaluation schedule / set order could raise for one string -/
+def altOne (names : List String) (p : Parsed) : List Err :=
   match p with
-  | .error c => [c]
+  | .error c => [.parse c]
   | .empty => []
   | .ast n => match toTermsAll n with
-    | .error es => es.map Err.cls
+    | .error es => es
     | .ok v => match rowsOf id names v.items with
-      | .error e => [e.cls]
+      | .error e => [e]
       | .ok _ => []
 
-def altSpec (names : List String) (parse : String → Parsed) : Spec → List String
+def altSpec (names : List String) (parse : String → Parsed) : Spec → List Err
   | .str s => altOne names (parse s)
   | .list ss => altOne names (parse (",".intercalate ss))
   | .dict items =>
     match (items.map (fun kv => altOne names (parse kv.1))).find? (fun l => !l.isEmpty) with
     | some l => l
-    | none => if items.isEmpty then ["ValueError"] else []
+    | none => if items.isEmpty then [.emptyDict] else []
 
-/-- request: {"names": [...], "form": "str"|"list"|"dict", "spec": ..., "parses": [[string, parsed], ...]} -/
+/-! ### every kind of specification (`Model/ConstraintForms.lean`) -/
+
+/-- {"n": "p/q"} | {"s": text} | [arr, ...] -/
+partial def arrOf (j : Json) : Option Arr :=
+  match j with
+  | .arr xs => (xs.toList.mapM arrOf).map .seq
+  | _ => match j.getObjVal? "n", j.getObjVal? "s" with
+    | .ok (.str q), _ => some (.num (ratOf q))
+    | _, .ok (.str t) => some (.text t)
+    | _, _ => none
+
+def cellJ : Cell → Json
+  | .num q => Json.str (ratStr q)
+  | .text t => Json.mkObj [("s", Json.str t)]
+
+def dictOf (j : Json) : List (String × Rat) :=
+  (asArr j).map (fun kv => match asArr kv with
+    | [k, v] => (asStr k, ratOf (asStr v))
+    | _ => ("", 0))
+
+/-- `variable_names`: a list or `null` -/
+def namesOf (j : Json) : Option (List String) :=
+  match j.getObjVal? "names" with
+  | .ok (.arr a) => some (a.toList.map asStr)
+  | _ => none
+
+/-- {"t": "none"|"num"|"str"|"dict"|"inst"|"list"|"tuple"|"nd", "v": …}; an instance carries its four attributes -/
+def pyOf (j : Json) : Option PyVal :=
+  match jstr j "t" with
+  | "none" => some .none
+  | "num" => some (.num (ratOf (jstr j "v")))
+  | "str" => some (.str (jstr j "v"))
+  | "dict" => some (.dict (dictOf (jval j "v")))
+  | "list" => ((jarr j "v").mapM arrOf).map .list
+  | "tuple" => ((jarr j "v").mapM arrOf).map .tuple
+  | "nd" => (arrOf (jval j "v")).map .nd
+  | "inst" => do
+    -- the instance is built by the MODEL's constructor from the arguments the harness passed to the real one
+    let A ← arrOf (jval j "A")
+    let b ← arrOf (jval j "b")
+    match initLC A b (namesOf (Json.mkObj [("names", jval j "inames")])) with
+    | .ok lc => pure (.inst lc)
+    | .error _ => none     -- the constructor call itself fails: see `ctorError`
+  | _ => none
+
+/-- the error of building the instance that is passed as the specification (`LinearConstraints(A, b, names)`) -/
+def ctorError (j : Json) : Option FErr :=
+  match jstr j "t", arrOf (jval j "A"), arrOf (jval j "b") with
+  | "inst", some A, some b => match initLC A b (namesOf (Json.mkObj [("names", jval j "inames")])) with
+    | .error e => some e
+    | .ok _ => none
+  | _, _, _ => none
+
+/-- the formula specification a Python object is read as (for the error-class alternatives) -/
+def formulaSpec : PyVal → Option Spec
+  | .str s => some (.str s)
+  | .dict items => some (.dict items)
+  | .list xs => (allText xs).map .list
+  | _ => none
+
+def lcJ (lc : LC) : List (String × Json) :=
+  [("A", jlist (lc.matrix.map (fun r => jlist (r.map cellJ)))), ("b", jlist (lc.values.map cellJ)),
+   ("ncols", toJson lc.ncols), ("names", jstrs lc.names), ("n", toJson lc.nConstraints),
+   ("repr", Json.str lc.repr)]
+
+/-- request: {"names": [...] | null, "py": spec, "parses": [[string, parsed, chars], ...]} -/
 def handleOne (j : Json) : Json :=
-  let names := strs j "names"
+  let names := namesOf j
   -- [string, parse reported by the real parser] (parser as a parameter), or
   -- [string, …, {s,w,sp}]: the model parses the string itself and the harness compares the two parses
   let tbl? : Option (List (String × Parsed)) := (jarr j "parses").mapM (fun kv =>
@@ -132,12 +188,22 @@ def handleOne (j : Json) : Json :=
     | [k, v] => (parsedOf v).map (fun p => (asStr k, p))
     | [k, _, ci] => (modelParse ci).map (fun p => (asStr k, p))
     | _ => none)
-  match tbl?, specOf j with
+  let msgJ := fun (m : Option String) => match m with | some t => Json.str t | none => Json.null
+  match ctorError (jval j "py") with
+  | some e => Json.mkObj [("error", Json.str e.cls), ("etag", Json.str e.tag), ("msg", msgJ e.msg), ("alt", jlist []),
+      ("pm", jlist []), ("ctor", Json.bool true)]
+  | none =>
+  match tbl?, pyOf (jval j "py") with
   | some tbl, some spec =>
     let pm := ("pm", jlist (tbl.map (fun kv => jlist [Json.str kv.1, parsedJ kv.2])))
-    match fromSpec id names (parseFn tbl) spec with
-    | .ok (A, b) => Json.mkObj [("A", jlist (A.map (fun r => jstrs (r.map ratStr)))), ("b", jstrs (b.map ratStr)), pm]
-    | .error e => Json.mkObj [("error", Json.str e.cls), ("alt", jstrs (altSpec names (parseFn tbl) spec)), pm]
+    match fromSpecAny id (parseFn tbl) names spec with
+    | .ok lc => Json.mkObj (lcJ lc ++ [pm])
+    | .error e =>
+      let alt := match e, names, formulaSpec spec with
+        | .compile _, some ns, some fs => altSpec ns (parseFn tbl) fs
+        | _, _, _ => []
+      Json.mkObj [("error", Json.str e.cls), ("etag", Json.str e.tag), ("msg", msgJ e.msg),
+        ("alt", jlist (alt.map (fun a => jlist [Json.str a.cls, msgJ (errMsg a)]))), pm]
   | _, _ => jerr "unmodelled"
 
 /-- one request, or a history {"steps": [request, ...]}: the model is a pure function of
